@@ -10,16 +10,18 @@
 (***************************************************************************)
 EXTENDS R1CS, Json, TLC
 
-CONSTANTS MaxN, MaxLen
+CONSTANTS MaxN, MaxLen, LongLens     \* LongLens: a sparse set of large list lengths (around the 32 / 64 boundaries)
 
 VARIABLES g, done
 hvars == << g, done >>
 
+HonestShape(x) == x.nL = x.nR /\ x.nL <= 30 /\ Pow2(x.nL) = Pad2(x.n)
 PtFields == {"AI1", "AO1", "S1", "AI2", "AO2", "S2", "T1", "T3", "T4", "T5", "T6", "L1", "R1"}
 ScFields == {"tx", "txb", "eb", "a", "b"}
 
-HInit == /\ g \in [n : 0 .. MaxN, nL : 0 .. MaxLen, nR : 0 .. MaxLen, zero : {""} \cup PtFields \cup ScFields]
-         /\ (g.zero # "" => (g.nL = g.nR /\ Pow2(g.nL) = Pad2(g.n)))    \* field edits on the honest shape only
+HInit == /\ \/ g \in [n : 0 .. MaxN, nL : 0 .. MaxLen, nR : 0 .. MaxLen, zero : {""} \cup PtFields \cup ScFields]
+            \/ g \in [n : {1, 3}, nL : LongLens \cup {0, 1}, nR : LongLens \cup {0, 1}, zero : {""}]
+         /\ (g.zero # "" => HonestShape(g))    \* field edits on the honest shape only
          /\ (g.zero \in {"L1", "R1"} => g.nL >= 1)
          /\ done = FALSE
 HNext == ~done /\ done' = TRUE /\ UNCHANGED g
@@ -40,11 +42,11 @@ Verdict ==
   IF r1.res # "" THEN r1.res ELSE VerifyP2(Env, Pad2(g.n), r1.st, r1.n1, Proof, Ch).res
 
 TotalVerifier == Verdict \in {"ok", "VerificationError"}
-ShapeGuardExact == (g.zero = "" /\ ~(g.nL = g.nR /\ Pow2(g.nL) = Pad2(g.n))) => Verdict = "VerificationError"
+ShapeGuardExact == (g.zero = "" /\ ~HonestShape(g)) => Verdict = "VerificationError"
 MandatoryIdentityRejected == g.zero \in {"AI1", "AO1", "S1", "T1", "T3", "T4", "T5", "T6", "L1", "R1"} => Verdict = "VerificationError"
 
 \* ideal expectation for the real curves: only the honest shape with untouched content is accepted
-Expect == IF g.zero = "" THEN (IF g.nL = g.nR /\ Pow2(g.nL) = Pad2(g.n) THEN "ok" ELSE "VerificationError")
+Expect == IF g.zero = "" THEN (IF HonestShape(g) THEN "ok" ELSE "VerificationError")
           ELSE IF g.zero \in ScFields \cup {"AI2", "AO2", "S2"} THEN "reject_or_same" ELSE "VerificationError"
 Emit == done => PrintT(<< "BEHAVIOUR", ToJson([n |-> g.n, nL |-> g.nL, nR |-> g.nR, zero |-> g.zero, k |-> Lg(Pad2(g.n)), expect |-> Expect]) >>)
 =============================================================================
